@@ -1183,3 +1183,147 @@ def jd(cx):
     cx.recog(ei is None, None, f"JD inheritance scenario cannot be evaluated: {ei}")
     cx.check(not fi, None, construct="Base{order=1, model=f()->3}; Sub(Base) re-declares order=5, model=f()->7, slices=10; Base() serialised first, then three Sub objects round-tripped", detail="the elision compares with the class's OWN declared defaults",
              bad_detail=fi[0] if fi else "", anchor="hybrid_class::HybridClass.to_dict", sub="inheritance")
+
+
+# ------------------------------------------------------------------------------------------ HX single scenarios
+def _scenario(model, body):
+    """evaluate `body(hw, found)` in a fresh world -> (discrepancies, analysis error or None)"""
+    hw = HyWorld(model)
+    I = hw.I
+    hw.numeric_views = body is not _sc_field_table  # (that scenario observes array attributes as views)
+    hw.W.copy_bytes = True
+    I.modglobals.setdefault("typeutils", {})["context_default"] = Obj("context", {}, name="ctx:default")
+    found = []
+    try:
+        res = I.explore(lambda: body(hw, found), max_paths=4)
+    except (AnalysisError, _Bad) as e:
+        return found, str(e)
+    if len(res) != 1:
+        return found, f"{len(res)} evaluation paths (an undecided condition): {res[0]['conds'][:2]}"
+    if res[0]["exc"] is not None:
+        return found, f"raises {res[0]['exc'].etype}: {res[0]['exc']}"
+    return found, None
+
+
+def _sc_field_table(hw, found):
+    """class B reuses the field table of class A (`{'v': Float64[:], **A._xofields}`): A's objects, old and new, must
+    read what they read before (PF57: the xo.Field objects were shared and B's layout written into them)"""
+    I = hw.I
+    F = I.global_lookup("scalar", "Float64")
+    I64 = I.global_lookup("scalar", "Int64")
+    Field = I.global_lookup("struct", "Field")
+    fields = {"a": I.call(Field, [I64], {"default": 3}), "b": F}
+    A = hw.mkclass("A", fields)
+    a = I.call(A, [], {"b": 2.5, "_buffer": hw.buf("A")})
+    before = (I.getattr(a, "a"), I.getattr(a, "b"))
+    table = I.getattr(A, "_xofields") if I.hasattr(A, "_xofields") is True else fields
+    if not isinstance(table, dict):
+        table = fields
+    ArrF = hw.lab.array("ArrNFloat64", [None], (0,), F)
+    B = hw.mkclass("B", dict({"v": ArrF}, **table))
+    after = (I.getattr(a, "a"), I.getattr(a, "b"))
+    if before != (3, 2.5):
+        found.append(f"A(b=2.5) reads a, b = {before!r} (declared default of a: 3)")
+    if after != before:
+        found.append(f"after `class B: _xofields = {{'v': Float64[:], **A._xofields}}` the existing A object reads a, b = {after!r}, before {before!r}")
+    found.extend(hw.mirror(a, "a"))
+    a2 = I.call(A, [], {"b": 2.5, "_buffer": hw.buf("A")})
+    got = (I.getattr(a2, "a"), I.getattr(a2, "b"))
+    if got != (3, 2.5):
+        found.append(f"after class B reused A's field table, a new A(b=2.5) reads a, b = {got!r}")
+    d = I.call(I.getattr(a2, "to_dict"), [], {})
+    if "a" in d or d.get("b") != 2.5:
+        found.append(f"after class B reused A's field table, A(b=2.5).to_dict() is {d!r}")
+    b = I.call(B, [], {"v": [1.0, 2.0], "b": 4.5, "_buffer": hw.buf("A")})
+    gb = (I.getattr(b, "a"), I.getattr(b, "b"))
+    if gb != (3, 4.5):
+        found.append(f"B(v=[1,2], b=4.5) reads a, b = {gb!r}")
+    found.extend(hw.mirror(b, "b"))
+
+
+def _sc_ref_dict(hw, found):
+    """to_dict(copy_to_cpu=False) of an object whose reference field holds a hybrid object with a renamed field, then
+    from_dict (PF56: the nested dictionary is keyed by python names)"""
+    I = hw.I
+    F = I.global_lookup("scalar", "Float64")
+    I64 = I.global_lookup("scalar", "Int64")
+    Ref = I.global_lookup("ref", "Ref")
+    Inner = hw.mkclass("Inner", {"a": I64, "c": F}, {"_rename": {"a": "aa"}})
+    Outer = hw.mkclass("Outer", {"r": I.call(Ref, [Inner], {}), "s": F})
+    inner = I.call(Inner, [], {"aa": 5, "c": 1.5, "_buffer": hw.buf("A")})
+    o = I.call(Outer, [], {"r": inner, "s": 3.0, "_buffer": hw.buf("A")})
+    for kw in ({}, {"copy_to_cpu": False}):
+        label = f"Outer(r=<Inner aa=5>, s=3).to_dict({', '.join(f'{k}={v}' for k, v in kw.items())})"
+        try:
+            d = I.call(I.getattr(o, "to_dict"), [], dict(kw))
+        except PyExc as e:
+            found.append(f"{label} raises {e.etype}: {e.msg}")
+            continue
+        try:
+            re = I.call(I.getattr(Outer, "from_dict"), [d], {"_buffer": hw.buf("B")})
+        except PyExc as e:
+            found.append(f"from_dict of {label} raises {e.etype}: {e.msg} (dictionary {d!r})")
+            continue
+        r = I.getattr(re, "r")
+        if r is None:
+            found.append(f"from_dict of {label}: the rebuilt reference is null (dictionary {d!r})")
+            continue
+        rx = r.attrs.get("_xobject") if isinstance(r, Obj) and "_xobject" in r.attrs else r
+        got = (I.getattr(rx, "a"), I.getattr(rx, "c"), I.getattr(re, "s"))
+        if got != (5, 1.5, 3.0):
+            found.append(f"from_dict of {label}: the rebuilt object has r.a, r.c, s = {got!r}, the original (5, 1.5, 3.0) (dictionary {d!r})")
+
+
+def _sc_ctor_struct_name(hw, found):
+    """the constructor accepts the STRUCT name of a renamed field as well: a hybrid object given for a reference field
+    under that name must be shared when it lives in the same buffer and refused when it does not (PF55)"""
+    I = hw.I
+    F = I.global_lookup("scalar", "Float64")
+    Ref = I.global_lookup("ref", "Ref")
+    Leaf = hw.mkclass("Leaf", {"x": F})
+    RH = hw.mkclass("RHolder", {"k": F, "r": I.call(Ref, [Leaf], {})}, {"_rename": {"r": "target"}})
+    leafA = I.call(Leaf, [], {"x": 1.5, "_buffer": hw.buf("A")})
+    leafB = I.call(Leaf, [], {"x": 2.5, "_buffer": hw.buf("B")})
+    for name in ("target", "r"):
+        which = "python name" if name == "target" else "struct name"
+        h = I.call(RH, [], {"k": 0.5, name: leafA, "_buffer": hw.buf("A")})
+        got = I.getattr(h, "target")
+        if got is not leafA:
+            found.append(f"RHolder({name}=<Leaf of the same buffer>) ({which}): the attribute `target` is {got!r}, not the object given (a reference shares it)")
+        found.extend(hw.mirror(h, f"RHolder({name}=leafA)"))
+        try:
+            I.call(I.getattr(leafA, "move"), [], {"_buffer": hw.buf("B")})
+            found.append(f"RHolder({name}=<Leaf>) ({which}): the shared object can still be moved away")
+            return
+        except PyExc:
+            pass
+        try:
+            I.call(RH, [], {"k": 0.5, name: leafB, "_buffer": hw.buf("A")})
+            found.append(f"RHolder({name}=<Leaf of ANOTHER buffer>, _buffer=A) ({which}) is accepted")
+        except PyExc:
+            pass
+
+
+SCENARIOS = {
+    "field-table-reuse": (_sc_field_table, "struct::MetaStruct.__new__", ["C18", "C19"]),
+    "ref-dict-renamed": (_sc_ref_dict, "hybrid_class::HybridClass._dict_with_xo_names", ["C19"]),
+    "ctor-struct-name": (_sc_ctor_struct_name, "hybrid_class::HybridClass.xoinitialize", ["C18"]),
+}
+
+
+@rule("HX", ["C18", "C19"], "hybrid classes, single scenarios evaluated: a class reusing another's field table, a reference to a hybrid object with renamed fields through to_dict(copy_to_cpu=False)/from_dict, the constructor given the struct name of a renamed reference field")
+def hx(cx):
+    m = cx.m
+    for _mod in ('hybrid_class', 'struct', 'array', 'ref', 'string', 'scalar', 'typeutils'):
+        m.mod(_mod)
+    n = 0
+    for name, (body, anchor, props) in SCENARIOS.items():
+        if cx.prop is not None and cx.prop not in props:
+            continue
+        m.func(anchor)
+        f, e = _scenario(m, body)
+        n += 1
+        cx.recog(e is None, None, f"HX {name} cannot be evaluated: {e}")
+        if e is None:
+            cx.check(not f, None, construct=f"scenario {name}", detail=(body.__doc__ or "").split("(PF")[0].strip().replace("\n    ", " "), bad_detail=f[0] if f else "", anchor=anchor, sub=name)
+    cx.need(n >= 1, "no HX scenario evaluated")
